@@ -3,7 +3,7 @@
    the Rust serialize/deserialize functions on every run (Gen/ShardLayout.v). *)
 From Coq Require Import NArith Bool List Permutation Sorted.
 Import ListNotations.
-From XetModel Require Import Base.Codec Gen.ShardLayout Model.Merkle Model.Shard Proofs.CodecProofs Proofs.ShardProofs Proofs.SearchProofs.
+From XetModel Require Import Base.Codec Gen.ShardLayout Model.Merkle Model.Shard Proofs.CodecProofs Proofs.ShardProofs Proofs.SearchProofs Proofs.SetOpSortedProofs Proofs.ShardWholeProofs.
 Open Scope N_scope.
 
 (* every fixed-width record codec round-trips (whatever field order the source uses, as long as
@@ -62,8 +62,37 @@ Proof.
   split; [vm_compute; reflexivity|]. vm_compute. eexists. split; reflexivity.
 Qed.
 
+(* the whole file: the bytes serialize_with produces (w_bs), read back.  ShardOk: well-formed records, a 32-byte key, 64-bit
+   totals, a shard below 4 GiB, byte-valued hashes.  The footer loads; both scans list exactly the records written; every
+   stored file hash is found with exactly its record and every other hash is not found -- for EVERY probe function of the
+   interpolation search, any number of records, as long as fewer than eight records share the truncated key (the code
+   reports a collision error otherwise) and the records are sorted by hash, as the in-memory shard keeps them. *)
+Theorem C09_footer_roundtrip : forall files cass ctbl key created expiry, ShardOk files cass ctbl key created expiry ->
+  load_footer (w_bs files cass ctbl key created expiry) = Some (w_ft files cass ctbl key created expiry).
+Proof. exact shard_footer_roundtrip. Qed.
+Theorem C09_scans_list_all_records : forall files cass ctbl key created expiry, ShardOk files cass ctbl key created expiry ->
+  read_all_files (w_bs files cass ctbl key created expiry) (w_ft files cass ctbl key created expiry) = Some files /\
+  read_all_cas (w_bs files cass ctbl key created expiry) (w_ft files cass ctbl key created expiry) = Some cass.
+Proof. exact shard_scans_list_all_records. Qed.
+Theorem C09_stored_file_found : forall files cass ctbl key created expiry probe f, ShardOk files cass ctbl key created expiry ->
+  KSorted fi_hash files -> In f files -> (length (matching (truncate_hash (fi_hash f)) (w_ftbl files)) < 8)%nat ->
+  get_file_info probe (w_bs files cass ctbl key created expiry) (w_ft files cass ctbl key created expiry) (fi_hash f) = Found f.
+Proof. exact shard_file_lookup_found. Qed.
+Theorem C09_absent_file_not_found : forall files cass ctbl key created expiry probe h, ShardOk files cass ctbl key created expiry ->
+  KSorted fi_hash files -> (forall g, In g files -> fi_hash g <> h) -> (length (matching (truncate_hash h) (w_ftbl files)) < 8)%nat ->
+  get_file_info probe (w_bs files cass ctbl key created expiry) (w_ft files cass ctbl key created expiry) h = NotFound.
+Proof. exact shard_file_lookup_notfound. Qed.
+Example C09_whole_file_nonvacuous :
+  let bs := w_bs [wx_f1; wx_f2] [] [] zero_hash 0 0 in let ft := w_ft [wx_f1; wx_f2] [] [] zero_hash 0 0 in
+  load_footer bs = Some ft /\ get_file_info probe_exact bs ft (fi_hash wx_f2) = Found wx_f2 /\ get_file_info probe_exact bs ft (repeat 3 32%nat) = NotFound.
+Proof. exact whole_file_example. Qed.
+
 Print Assumptions C09_file_record_roundtrip.
 Print Assumptions C09_cas_record_roundtrip.
 Print Assumptions C09_file_section_scan.
 Print Assumptions C09_cas_section_scan.
 Print Assumptions C09_lookup_search_exact.
+Print Assumptions C09_footer_roundtrip.
+Print Assumptions C09_scans_list_all_records.
+Print Assumptions C09_stored_file_found.
+Print Assumptions C09_absent_file_not_found.
